@@ -335,6 +335,8 @@ class CSSSerializer:
         # TODO:
         self._selectors = []  # holds SelectorList
         self._selectorlevel = 0  # current specificity nesting level
+        # both are only kept while ONE style sheet is serialized
+        self._insheet = False
 
     def _atkeyword(self, rule):
         "returns default or source atkeyword depending on prefs"
@@ -397,18 +399,25 @@ class CSSSerializer:
         """serializes a complete CSSStyleSheet"""
         useduris = stylesheet._getUsedURIs()
         out = []
-        for rule in stylesheet.cssRules:
-            if (
-                self.prefs.keepUsedNamespaceRulesOnly
-                and rule.NAMESPACE_RULE == rule.type
-                and rule.namespaceURI not in useduris
-                and (rule.prefix or None not in useduris)
-            ):
-                continue
+        # prefs.indentSpecificities relates the rules of this sheet to each
+        # other, nothing is carried over from or to any other serialization
+        outer = self._insheet, self._selectors, self._selectorlevel
+        self._insheet, self._selectors, self._selectorlevel = True, [], 0
+        try:
+            for rule in stylesheet.cssRules:
+                if (
+                    self.prefs.keepUsedNamespaceRulesOnly
+                    and rule.NAMESPACE_RULE == rule.type
+                    and rule.namespaceURI not in useduris
+                    and (rule.prefix or None not in useduris)
+                ):
+                    continue
 
-            cssText = rule.cssText
-            if cssText:
-                out.append(cssText)
+                cssText = rule.cssText
+                if cssText:
+                    out.append(cssText)
+        finally:
+            self._insheet, self._selectors, self._selectorlevel = outer
         text = self._linenumnbers(self.prefs.lineSeparator.join(out))
 
         # get encoding of sheet, defaults to UTF-8
@@ -767,7 +776,7 @@ class CSSSerializer:
 
         # prepare for element nested rules
         # TODO: sort selectors!
-        if self.prefs.indentSpecificities:
+        if self.prefs.indentSpecificities and self._insheet:
             # subselectorlist?
             elements = {s.element for s in rule.selectorList}
             specitivities = [s.specificity for s in rule.selectorList]
